@@ -382,12 +382,19 @@ def r3_4(ctx):
                 c = cu.strip_casts(f, f.kid(n, 1))
                 if c is not None and c['k'] == 'bin' and c['op'] in ('<', '<=') :
                     r = cu.strip_casts(f, f.kid(c, 1))
+                    plus1 = False
+                    if r is not None and r['k'] == 'bin' and r['op'] == '+' and \
+                            cu.const_of(cu.strip_casts(f, f.kid(r, 1))) == 1:
+                        r = cu.strip_casts(f, f.kid(r, 0))
+                        plus1 = True
                     if r is not None and r['k'] == 'member' and r['fld'] == 'sp':
                         ivar = canon(f, f.kid(c, 0))
                         uses = [x for x in f.walk(n) if x['k'] == 'sub' and canon(f, f.kid(x, 1)) == ivar and
                                 canon(f, f.kid(x, 0)).endswith('->stack')]
                         if uses:
-                            loops.append((f, n, c))
+                            eff = {'k': 'bin', 'op': '<=' if (plus1 and c['op'] == '<') else c['op'], 'i': c['i'],
+                                   'l': c.get('l')}
+                            loops.append((f, n, c if not plus1 else dict(c, op=eff['op'])))
     ctx.require((push_pre + push_post > 0 and init is not None) or ctx.fixture,
                 'fiber stack discipline (initial sp, push form) not recognised')
     # sp = -1 and stack[++sp]: sp is the index of the top entry -> inclusive bound
